@@ -4,6 +4,7 @@
 From Coq Require Import String List NArith ZArith Bool.
 From J5V.lib Require Import Outcome Corr.
 From J5V.model Require Import RulesDecl RulesWrite RulesRead RulesEnum RulesCorr.
+From J5V.model Require ProtoPrintFile RulesView.
 Import ListNotations.
 
 Definition oZ_eq_dec : forall a b : option Z, {a = b} + {a <> b}.
@@ -85,7 +86,19 @@ Inductive c04case :=
 | C04Enum (e : enum_decl) (obs : enum_out) (refl : outcome renum)
 (* the printed text: annotations of the in-memory fields, annotations of the
    fields after print + parse, and whether the two reflected schemas were equal *)
-| C04Text (mem txt : list fout) (same_schema : bool).
+| C04Text (mem txt : list fout) (same_schema : bool)
+(* the decoder of C04_text_concrete: a compiled field as a descriptor of the file
+   model of family tool (label, type, names, comment, option trees), and the
+   annotation record this harness dumps for the same field *)
+| C04View (df : ProtoPrintFile.dfield) (fo : fout).
+
+(* options on the value field of a map entry (the key annotation) are not part of the file model *)
+Definition drop_map_key (o : fout) : fout :=
+  match fo_kind o with
+  | KdMapEntry _ => FO (fo_json o) (fo_name o) (fo_number o) (fo_kind o) (fo_rep o) (fo_opt o) (fo_pres o)
+                       (fo_val o) (fo_ext o) (fo_list o) None (fo_desc o)
+  | _ => o
+  end.
 
 (* per property: is the reflected property the declared one (RulesRead.norm_prop)? *)
 Fixpoint declared_eq (env : enum_env) (idx : N) (ds : list prop) (rs : list (option rprop)) : list bool :=
@@ -123,6 +136,8 @@ Definition c04_check (c : c04case) : bool :=
       (* the text clause: where the reader's view of the fields is the same, the
          reflected schemas are (C04_text_clause) *)
       implb (list_eqb (fun a b => fout_eqb (c04_proj a) (c04_proj b)) mem txt) same_schema
+  | C04View df fo =>
+      fout_eqb (c04_proj (RulesView.view_field df)) (c04_proj (drop_map_key fo))
   | C04Enum e obs refl =>
       (if enum_out_eq_dec (write_enum e) obs then true else false) &&
       match read_enum obs, refl with
